@@ -128,8 +128,31 @@ def _rich(nf):
     return n
 
 
+SHARED = {"parser": None, "prev": None}
+
+
 def check_case(label, data, info, res: Result):
     o, viols, mode = evaluate(data)
+    if SHARED["parser"] is not None:
+        # same input through a Parser reused across the whole shard: same tree expected
+        o2 = lab.parse(data, parser=SHARED["parser"])
+        same = o2.verdict() == o.verdict()
+        if same and o.verdict() is True:
+            try:
+                same = lab.nf_result(o2.result) == lab.nf_result(o.result)
+            except RecursionError:
+                same = True
+        res.monitor("reused-parser-same-tree", not same)
+        if not same:
+            res.violation({"oracle": "tree-depends-on-parser-reuse",
+                           "fresh": str(o.verdict()), "reused": str(o2.verdict())},
+                          {"input": data, "previous_input": SHARED["prev"],
+                           "fresh_tree": repr(lab.nf_result(o.result))[:200]
+                           if o.verdict() is True else None,
+                           "reused_tree": repr(lab.nf_result(o2.result))[:200]
+                           if o2.verdict() is True else None})
+            SHARED["parser"] = lab.sl_parser.Parser()
+        SHARED["prev"] = data
     if viols is None:
         res.case(data, nontrivial=False)
         res.count("not-accepted")
@@ -170,6 +193,8 @@ def check_case(label, data, info, res: Result):
 
 
 def run_shard(tier, shard, res: Result):
+    from .c01 import reuse_applies
+    SHARED["parser"] = lab.sl_parser.Parser() if reuse_applies(shard) else None
     n = 0
     for label, data, info in pwork.cases(shard):
         o = check_case(label, data, info, res)
